@@ -1,9 +1,110 @@
 import PersimVerif.Drv.Util
-/-! driver commands: Imager (stub until the model lands) -/
+import PersimVerif.Model.Imager
+/-!
+  driver commands for C12 (model at `Rat`, `ceil := Rat.ceil`):
+
+    img.hist [b0,b1] [p0,p1] ps <ops>          constructor, then the history
+    img.from [b0,b1,p0,p1,ps,w,h,rx,ry] <ops>  the history from a given state
+    img.old  [b0,b1] [p0,p1] ps                the pre-fix constructor (counterexample replay)
+
+  ops = `[[sb,v0,v1],[sp,v0,v1],[px,v],[fit,<skew>,s,<dgm>],[fit,<skew>,c,[<dgm>,…]],…]`.
+  Answer: one entry per reached state (the constructor's first),
+    `[b0,b1,p0,p1,ps,w,h,rx,ry,[first,last,count,dev],[first,last,count,dev],qx,qy,shape]`
+  where `dev = max |step − ps|` over consecutive mesh points, `qx/qy` = the quotient whose ceiling the
+  operation took on that axis (`none` if it took none; for the razor-edge rule of the harness) and
+  `shape` = shape of one image of a one-point diagram.  A rejected operation ends the list with `err:Kind`.
+-/
 namespace PersimVerif.Drv.Imager
-open PersimVerif Val PersimVerif.Drv
+open PersimVerif Val PersimVerif.Drv PersimVerif.Imager
+
+def errVal : Err → Val
+  | .zeroPixel => err "zeroPixel"
+  | .negCount => err "negCount"
+  | .emptyData => err "emptyData"
+
+def absR (x : Rat) : Rat := if x < 0 then -x else x
+
+def meshSummary (m : List Rat) (ps : Rat) : Val :=
+  match m with
+  | [] => .list [.str "none", .str "none", ofNat 0, .num 0]
+  | a :: t =>
+    let (last, dev) := t.foldl (fun (acc : Rat × Rat) x =>
+        let d := absR (x - acc.1 - ps)
+        (x, if acc.2 < d then d else acc.2)) (a, 0)
+    .list [.num a, .num last, ofNat m.length, .num dev]
+
+def optRatVal : Option Rat → Val
+  | none => .str "none"
+  | some r => .num r
+
+def stateFields (s : State Rat) : List Val :=
+  [.num s.b0, .num s.b1, .num s.p0, .num s.p1, .num s.ps, .num s.w, .num s.h, ofInt s.rx, ofInt s.ry]
+
+def entry (s : State Rat) (qx qy : Option Rat) : Val :=
+  let shape := match imageShape s 1 with
+    | some (a, b) => Val.list [ofInt a, ofInt b]
+    | none => err "shape"
+  .list (stateFields s ++ [meshSummary (meshB s) s.ps, meshSummary (meshP s) s.ps,
+                           optRatVal qx, optRatVal qy, shape])
+
+def inputOf? (kind data : Val) : Option (Input Rat) :=
+  match kind with
+  | .str "s" => (ratDgm? data).map Input.single
+  | .str "c" => (listOf? ratDgm? data).map Input.coll
+  | _ => none
+
+def opOf? : Val → Option (Op Rat)
+  | .list [.str "sb", a, b] => do pure (.setBirth (← asRat? a) (← asRat? b))
+  | .list [.str "sp", a, b] => do pure (.setPers (← asRat? a) (← asRat? b))
+  | .list [.str "px", a] => do pure (.setPixel (← asRat? a))
+  | .list [.str "fit", sk, kind, data] => do pure (.fit (← asBool? sk) (← inputOf? kind data))
+  | _ => none
+
+/-- the quotients whose ceiling `op` takes on state `s` (driver-side bookkeeping for the razor-edge rule) -/
+def quotients (s : State Rat) : Op Rat → Option Rat × Option Rat
+  | .setBirth a b => (some ((b - a) / s.ps), none)
+  | .setPers a b => (none, some ((b - a) / s.ps))
+  | .setPixel v => (some ((s.b1 - s.b0) / v), some ((s.p1 - s.p0) / v))
+  | .fit sk X =>
+    match scan sk ⟨none, none, none, none⟩ (ensureIterable X).1 with
+    | .ok ⟨some a, some b, some c, some d⟩ => (some ((b - a) / s.ps), some ((d - c) / s.ps))
+    | _ => (none, none)
+
+def trajectory (s : State Rat) (ops : List (Op Rat)) (acc : List Val) : List Val :=
+  match ops with
+  | [] => acc.reverse
+  | op :: rest =>
+    match step Rat.ceil s op with
+    | .error e => (errVal e :: acc).reverse
+    | .ok s' => let (qx, qy) := quotients s op
+                trajectory s' rest (entry s' qx qy :: acc)
+
+def stateOf? : Val → Option (State Rat)
+  | .list [b0, b1, p0, p1, ps, w, h, rx, ry] => do
+    pure { b0 := ← asRat? b0, b1 := ← asRat? b1, p0 := ← asRat? p0, p1 := ← asRat? p1, ps := ← asRat? ps,
+           w := ← asRat? w, h := ← asRat? h, rx := ← asInt? rx, ry := ← asInt? ry }
+  | _ => none
 
 def handle : Handler
+  | "img.hist", [br, pr, ps, ops] => do
+    let (b0, b1) ← pairOf? asRat? br
+    let (p0, p1) ← pairOf? asRat? pr
+    let ps ← asRat? ps
+    let ops ← listOf? opOf? ops
+    match ctor Rat.ceil b0 b1 p0 p1 ps with
+    | .error e => pure (.list [errVal e])
+    | .ok s => pure (.list (trajectory s ops [entry s (some ((b1 - b0) / ps)) (some ((p1 - p0) / ps))]))
+  | "img.from", [st, ops] => do
+    let s ← stateOf? st
+    let ops ← listOf? opOf? ops
+    pure (.list (trajectory s ops []))
+  | "img.old", [br, pr, ps] => do
+    let (b0, b1) ← pairOf? asRat? br
+    let (p0, p1) ← pairOf? asRat? pr
+    let ps ← asRat? ps
+    match ctorOld Rat.floor b0 b1 p0 p1 ps with   -- int() of a non-negative quotient
+    | .error e => pure (.list [errVal e])
+    | .ok s => pure (.list [entry s none none])
   | _, _ => none
 
 end PersimVerif.Drv.Imager
